@@ -97,3 +97,23 @@ pub fn opt_dec(d: Option<Decimal>) -> String {
         None => "-".to_string(),
     }
 }
+
+/// Replay modes: the protocol lines of every case on stdin (from `case` up to, not including, `end`).
+pub fn read_cases_stdin() -> Vec<Vec<String>> {
+    let mut buf = String::new();
+    std::io::Read::read_to_string(&mut std::io::stdin(), &mut buf).unwrap();
+    let mut res = Vec::new();
+    let mut cur: Vec<String> = Vec::new();
+    for l in buf.lines() {
+        if l.starts_with("case ") {
+            cur = vec![l.to_string()];
+        } else if l == "end" {
+            if !cur.is_empty() {
+                res.push(std::mem::take(&mut cur));
+            }
+        } else if !cur.is_empty() {
+            cur.push(l.to_string());
+        }
+    }
+    res
+}
